@@ -4,6 +4,7 @@ import (
 	"context"
 	"io"
 	"os"
+	"reflect"
 	"unsafe"
 
 	"github.com/goccy/go-json/internal/encoder"
@@ -11,6 +12,7 @@ import (
 	"github.com/goccy/go-json/internal/encoder/vm_color"
 	"github.com/goccy/go-json/internal/encoder/vm_color_indent"
 	"github.com/goccy/go-json/internal/encoder/vm_indent"
+	"github.com/goccy/go-json/internal/runtime"
 )
 
 // An Encoder writes JSON values to an output stream.
@@ -229,6 +231,13 @@ func encode(ctx *encoder.RuntimeContext, v interface{}) ([]byte, error) {
 	}
 
 	p := uintptr(header.ptr)
+	if (typ.Kind() == reflect.Array || typ.Kind() == reflect.Struct) && !runtime.IfaceIndir(typ) {
+		// an array of one pointer-shaped element is kept in the interface word itself:
+		// give the program the address of a copy of that word
+		word := header.ptr
+		ctx.KeepRefs = append(ctx.KeepRefs, unsafe.Pointer(&word))
+		p = uintptr(unsafe.Pointer(&word))
+	}
 	ctx.Init(p, codeSet.CodeLength)
 	// while a recursive or interface program runs, the slots ( uintptr ) hold the only
 	// reference into this program, which is not necessarily the one kept in the cache.
@@ -260,6 +269,13 @@ func encodeNoEscape(ctx *encoder.RuntimeContext, v interface{}) ([]byte, error) 
 	}
 
 	p := uintptr(header.ptr)
+	if (typ.Kind() == reflect.Array || typ.Kind() == reflect.Struct) && !runtime.IfaceIndir(typ) {
+		// an array of one pointer-shaped element is kept in the interface word itself:
+		// give the program the address of a copy of that word
+		word := header.ptr
+		ctx.KeepRefs = append(ctx.KeepRefs, unsafe.Pointer(&word))
+		p = uintptr(unsafe.Pointer(&word))
+	}
 	ctx.Init(p, codeSet.CodeLength)
 	// while a recursive or interface program runs, the slots ( uintptr ) hold the only
 	// reference into this program, which is not necessarily the one kept in the cache.
@@ -290,6 +306,13 @@ func encodeIndent(ctx *encoder.RuntimeContext, v interface{}, prefix, indent str
 	}
 
 	p := uintptr(header.ptr)
+	if (typ.Kind() == reflect.Array || typ.Kind() == reflect.Struct) && !runtime.IfaceIndir(typ) {
+		// an array of one pointer-shaped element is kept in the interface word itself:
+		// give the program the address of a copy of that word
+		word := header.ptr
+		ctx.KeepRefs = append(ctx.KeepRefs, unsafe.Pointer(&word))
+		p = uintptr(unsafe.Pointer(&word))
+	}
 	ctx.Init(p, codeSet.CodeLength)
 	// while a recursive or interface program runs, the slots ( uintptr ) hold the only
 	// reference into this program, which is not necessarily the one kept in the cache.
